@@ -13,8 +13,18 @@ func init() { Registry["C15"] = C15 }
 
 // C15: endpoint × caller × target state on a read-only gateway, with a
 // read-write twin on an identically populated storage for the "reads keep working" half.
+// c15Modifiers: optional request headers that s3api/controllers reads (one is added to the valid request of
+// every mutating endpoint).
+var c15Modifiers = [][2]string{
+	{"x-amz-bypass-governance-retention", "true"}, {"x-amz-acl", "public-read-write"}, {"x-amz-grant-full-control", "usr3"}, {"x-amz-grant-write", "usr3"},
+	{"x-amz-object-lock-legal-hold", "ON"}, {"x-amz-tagging", "a=b"}, {"x-amz-metadata-directive", "REPLACE"}, {"x-amz-tagging-directive", "REPLACE"},
+	{"x-amz-expected-bucket-owner", "usr1"}, {"x-amz-mfa", "123 456"}, {"x-amz-request-payer", "requester"}, {"x-amz-object-ownership", "BucketOwnerPreferred"},
+	{"x-amz-bucket-object-lock-enabled", "true"}, {"x-amz-storage-class", "STANDARD"}, {"x-amz-checksum-algorithm", "CRC32"}, {"x-amz-sdk-checksum-algorithm", "CRC32"},
+	{"x-amz-copy-source-if-match", "*"}, {"x-amz-mp-object-size", "0"}, {"content-type", "application/x-directory"}, {"if-match", "*"}, {"if-none-match", "*"},
+}
+
 func C15(r *ck.Run) {
-	r.Rule("every endpoint shape of the S3 API table × caller role (root, admin, userplus, owner, policy grantee, ACL grantee) × storage configuration on a gateway started with the read-only switch; mutating endpoints must be refused with the storage byte-identical, non-mutating ones must answer like the read-write twin; plus DELETE / tagging changes that name a version id (null, stored versions); distinct = (config, endpoint, caller, path form)")
+	r.Rule("every endpoint shape of the S3 API table × caller role (root, admin, userplus, owner, policy grantee, ACL grantee) × storage configuration on a gateway started with the read-only switch; mutating endpoints must be refused with the storage byte-identical, non-mutating ones must answer like the read-write twin; plus DELETE / tagging changes that name a version id (null, stored versions); plus every mutating endpoint with one of 21 optional request headers added (bypass-governance, canned ACL and grants, lock, tagging, directives, expected owner, checksum algorithm, conditionals); distinct = (config, endpoint, caller, path form)")
 	r.Assume("account management through the admin API (PATCH /create-user ...) does not touch what is stored for buckets and is excluded; change-bucket-owner, which is served on the same listener and rewrites a bucket's ACL, is included; a non-mutating request is compared by status, error code and (GetObject) body")
 	cfgs := []gw.Opts{{}, {Versioning: true}}
 	if r.Thorough() {
@@ -120,6 +130,36 @@ func C15(r *ck.Run) {
 						}
 						if ep.ID == "PutObject" && c == gw.Root && ci == 0 {
 							r.Sample(map[string]any{"endpoint": ep.ID, "caller": c.Access, "status": resp.Status, "code": resp.ErrCode()})
+						}
+					}
+					// every mutating endpoint again with ONE optional request header the controllers branch on
+					// (a header can move a request onto another code path or another permission class)
+					if ep.Mutating {
+						for _, mod := range c15Modifiers {
+							req := valid.Clone()
+							if req.Get(mod[0]) != "" {
+								continue
+							}
+							req.Set(mod[0], mod[1])
+							gw.Sign(req, c, gw.SignOpts{})
+							resp := ro.F.G.Do(req)
+							r.Add("evaluations", 1)
+							r.Distinct(fmt.Sprintf("%d|%s|%s|hdr:%s", ci, ep.ID, c.Access, mod[0]))
+							r.Outcome(fmt.Sprintf("mut+header:%d", resp.Status/100))
+							after := ro.F.G.Snapshot(gw.SnapOpts{})
+							diff := base.Diff(after, 6)
+							det := map[string]any{"config": fmt.Sprintf("%+v", cfg), "endpoint": ep.ID, "caller": c.Access, "added_header": mod[0] + ": " + mod[1],
+								"request": req.String(), "response": resp.String(), "state_diff": diff}
+							if len(diff) > 0 {
+								r.Violation(ck.JoinSig(ep.ID, "with-header "+mod[0], roleOf(c), "state-changed-in-read-only-mode"), det)
+								rw.Close()
+								ro.Close()
+								ro = build(true)
+								rw = twin()
+								base = ro.F.G.Snapshot(gw.SnapOpts{})
+							} else if resp.Err != nil || resp.Status < 400 {
+								r.Violation(ck.JoinSig(ep.ID, "with-header "+mod[0], roleOf(c), fmt.Sprintf("mutating-request-answered-%d", resp.Status)), det)
+							}
 						}
 					}
 				}
